@@ -1158,6 +1158,7 @@ def scenario_campaign(ch, tr, st):
                 check_event(M, st, ev, tr)
     st.rendered["ops"] = ops
     st.steps = steps
+    recheck_envelopes(st)
     ncases = sum(len(e.done) for e in events)
     st.nontrivial = ncases >= 2 and (
         any(e.jorder != sorted(e.jorder) for e in events) or bool(st.faults) or any(o.startswith("envelope") and o.count("ev") >= 2 for o in ops)
@@ -1685,7 +1686,33 @@ def op_envelope(M, ch, tr, st, started, top, top_sig, ops):
     # forming envelopes must leave the events' own tables alone
     for e in order:
         check_event(M, st, e, tr)
+    # ... and an envelope already handed to the user must stay what it was when OTHER trees are
+    # built from the same events later (looked at again at the end of the campaign)
+    held = st.__dict__.setdefault("held_envelopes", [])
+    held[:] = [h_ for h_ in held if h_[0] is not tree][-3:]
+    snap = {}
+    for cname, x in tree["extreme"].items():
+        snap[cname] = (np.array(x.ext, copy=True), None if x.ext_x is None else np.array(x.ext_x, copy=True), list(x.maxcase), list(x.mincase), np.array(x.mx, copy=True), np.array(x.mn, copy=True))
+    held.append((tree, snap, len(ops)))
     return tree, sig
+
+
+def recheck_envelopes(st):
+    for tree, snap, opno in st.__dict__.get("held_envelopes", []):
+        if "extreme" not in tree:
+            continue
+        for cname, (ext, ext_x, mxc, mnc, mx, mn) in snap.items():
+            x = tree["extreme"].get(cname)
+            if x is None:
+                raise Violation("envelope_changed_later", f"form_extreme:{cname}", reason="category vanished from an envelope formed earlier", formed_at_op=opno)
+            same = (
+                np.array_equal(x.ext, ext, equal_nan=True) and list(x.maxcase) == mxc and list(x.mincase) == mnc
+                and np.array_equal(x.mx, mx, equal_nan=True) and np.array_equal(x.mn, mn, equal_nan=True)
+                and ((x.ext_x is None) == (ext_x is None)) and (ext_x is None or np.array_equal(x.ext_x, ext_x, equal_nan=True))
+            )
+            if not same:
+                raise Violation("envelope_changed_later", f"form_extreme:{cname}", reason="an envelope formed earlier was modified by later operations on other trees / events", formed_at_op=opno)
+    st.probe("envelopes_rechecked")
 
 
 def _labels_for(doappend, levels, which, key, ev, case_label):
